@@ -179,3 +179,34 @@ let op2_of (s : sexp) : op2 =
   | "sample" -> OSample
   | "buffer" -> OBuffer
   | h -> failwith ("bad op2 " ^ h)
+
+(* ---- subjects ---- *)
+let sop_of (s : sexp) : sop =
+  let a = args s in
+  match head s with
+  | "sub" -> OpSubscribe
+  | "unsub" -> OpUnsubOne (narg (List.hd a))
+  | "next" -> OpNext (val_of (List.hd a))
+  | "next_sub_inside" -> OpNextSubInside (val_of (List.nth a 0), narg (List.nth a 1))
+  | "error" -> OpError (zarg (List.hd a))
+  | "complete" -> OpComplete
+  | "clone" -> OpClone
+  | "retain" -> OpRetain
+  | "unsub_subject" -> OpUnsubSubject
+  | "len" -> OpLen
+  | "is_empty" -> OpIsEmpty
+  | "is_closed" -> OpIsClosed
+  | "is_finished" -> OpIsFinished
+  | "sub_closed" -> OpSubClosed (narg (List.hd a))
+  | h -> failwith ("bad subject op " ^ h)
+
+let show_sobs b = function
+  | Deliver (i, e) -> Buffer.add_string b ("(d " ^ string_of_int (int_of_nat i) ^ " "); show_ev b e; Buffer.add_char b ')'
+  | Subscribed i -> Buffer.add_string b ("(s " ^ string_of_int (int_of_nat i) ^ ")")
+  | RetN n -> Buffer.add_string b ("(rn " ^ string_of_int (int_of_nat n) ^ ")")
+  | RetB x -> Buffer.add_string b (if x then "(rb #t)" else "(rb #f)")
+
+let show_sobs_list (l : sobs list) : string =
+  let b = Buffer.create 64 in
+  List.iteri (fun i o -> if i > 0 then Buffer.add_char b ' '; show_sobs b o) l;
+  Buffer.contents b
